@@ -312,6 +312,12 @@ let check_line (line : string) : unit =
          let got = Hashtbl.create 32 in
          List.iter (fun r -> if r.k = 'F' then Hashtbl.replace got r.tag (1 + try Hashtbl.find got r.tag with Not_found -> 0)) tr;
          if Hashtbl.fold (fun t w bad -> bad || (try Hashtbl.find got t with Not_found -> 0) <> w) want false then oracle "next_dispatch" 0);
+        (* a later dispatch in which one other system panics alone: the payload is that system's *)
+        (if get "PN2" <> "" then begin
+           let want = "injected panic " ^ get "nf" in
+           let hex = String.concat "" (List.map (fun c -> Printf.sprintf "%02x" (Char.code c)) (List.init (String.length want) (String.get want))) in
+           if get "PN2" <> hex then oracle "panic_payload" 0
+         end);
         let probe = get "probeN" in
         if probe <> "-" && String.exists (fun c -> c <> '0') probe then oracle "probe_free" 0
       end;
